@@ -93,6 +93,11 @@ Theorem C08_bounds_reread :
 Proof. exact decode_rd. Qed.
 Print Assumptions C08_bounds_reread.
 
+(* the precondition as an executable test (evaluated by checks/C08.py on every generated problem) *)
+Theorem C08_wf_test_sound : forall M P, wf_lpb M P = true -> wf_lp M P.
+Proof. exact wf_lpb_sound. Qed.
+Print Assumptions C08_wf_test_sound.
+
 (* the hypotheses of C08_lp_roundtrip are satisfiable (ranged row, keyword as column name, integer column, empty row) *)
 Example C08_wf_satisfiable : exists M P, 0 < M /\ wf_lp M P.
 Proof. eexists 1000, _. split; [reflexivity|]. exact (proj1 wf_lp_example). Qed.
